@@ -115,8 +115,10 @@ def case_st(draw):
     elif op == "sort_axis":
         p = {"by": draw(st.sampled_from(["name", "pos"]))}
     elif op == "reindex_axis":
-        rel, new = draw(gen.related_labels(labs, kind, relation=draw(st.sampled_from(["permuted", "subset", "superset", "overlapping", "disjoint", "equal"]))))
+        rel, new = draw(gen.related_labels(labs, kind, relation=draw(st.sampled_from(["permuted", "subset", "superset", "overlapping", "disjoint", "equal", "interior", "inner-permuted"]))))
         method = draw(st.sampled_from([None, None, None, "left", "right"]))
+        if kind == "i" and draw(st.integers(0, 3)) == 0:
+            new = [float(x) for x in new]       # the labels of an integer axis requested as floats
         p = {"new": new, "fill": draw(st.sampled_from(["nan", "nan", -1, 0])), "raise_error": draw(st.sampled_from([False, False, True])) if method is None else False,
              "method": method, "as": draw(st.sampled_from(["list", "axis"])), "by": draw(st.sampled_from(["name", "pos"]))}
     elif op == "reindex_like":
@@ -207,6 +209,7 @@ def enumerate_cases(tier):
                        ("take_axis", {"indices": [-4, 1, 5], "indexing": "position", "by": by, "mode": "wrap"}),
                        ("sort_axis", {"by": by}),
                        ("reindex_axis", {"new": [labs[1], labs[0] + 100, labs[0]], "fill": "nan", "raise_error": False, "method": None, "as": "list", "by": by}),
+                       ("reindex_axis", {"new": [labs[0], labs[1] + 100] + list(labs[2:]), "fill": "nan", "raise_error": False, "method": None, "as": "list", "by": by}),
                        ("reindex_axis", {"new": [labs[1], labs[0] + 100], "fill": -1, "raise_error": False, "method": None, "as": "axis", "by": by}),
                        ("reindex_axis", {"new": [labs[0] + 0.25, labs[1]], "fill": "nan", "raise_error": False, "method": "left", "as": "list", "by": by}),
                        ("reindex_axis", {"new": list(labs[::-1]), "fill": "nan", "raise_error": True, "method": None, "as": "list", "by": by}),
@@ -305,6 +308,12 @@ def same_var(got, exp, what, sig, attrs=True):
         check(core.same_scalar(got.values.item(), exp, tol=True), "variable-value", {"what": what, "got": core.jsonable(got.values), "expected": core.jsonable(exp)}, sig)
         return
     core.expect_equal_arrays(got, exp, what, tol=True, sig=sig)
+    # "exactly the result of the corresponding DimArray operation": also the kind of the labels (integer / float / str) and of the values
+    kk = lambda dt: "s" if dt.kind in "OUS" else dt.kind
+    for i, d_ in enumerate(exp.dims):
+        check(kk(got.axes[i].values.dtype) == kk(exp.axes[i].values.dtype), "label-kind", {"what": what, "dim": d_, "dataset_level": str(got.axes[i].values.dtype),
+                                                                                             "per_variable": str(exp.axes[i].values.dtype)}, sig)
+    check(kk(got.values.dtype) == kk(exp.values.dtype), "value-kind", {"what": what, "dataset_level": str(got.values.dtype), "per_variable": str(exp.values.dtype)}, sig)
     if attrs:
         check(core.attrs_equal(got.attrs, exp.attrs), "variable-attrs", {"what": what, "got": core.jsonable(got.attrs), "expected": core.jsonable(exp.attrs)}, sig)
 
